@@ -278,7 +278,9 @@ def future_program(pid, macro, seed, length):
     L.append("vassert!(tm == tr, \"C01[%s]: same callback trace as the method chain (async)\");" % pid)
     L.append("vcover!(true, \"end reached\");")
     desc = dict(macro=macro, operators=ops, reference=ref)
-    return Program(pid, text, "    " + "\n    ".join(L), desc=desc, group="future/" + macro, role=dict(kind=macro), unwind=12)
+    # and_then / or_else futures nest state machines: the dominant cost of async queries
+    w = 2 + len(ops) + 5 * sum(1 for o_ in ops if o_ in ("=>", "<=")) + (4 if KINDS[macro][2] else 0)
+    return Program(pid, text, "    " + "\n    ".join(L), desc=desc, group="future/" + macro, role=dict(kind=macro), unwind=12, weight=w)
 
 
 def programs(tier, seed):
@@ -303,7 +305,7 @@ def all_programs(tier, seed):
     nf = 12 if tier == "quick" else 48
     for k in range(nf):
         i += 1
-        ps.append(future_program("p%04d" % i, amacros[k % len(amacros)], seed, 1 + k % 4))
+        ps.append(future_program("p%04d" % i, amacros[k % len(amacros)], seed, 1 + k % (3 if tier == "quick" else 4)))
     return ps
 
 
